@@ -27,7 +27,7 @@ func (l layout18) sep() string {
 	if l.style == 0 {
 		return " "
 	}
-	return []string{" ", "  ", "\t", "\n", "\r\n", " # c\n", "\n\n ", " "}[l.r.Intn(8)]
+	return []string{" ", "  ", "\t", "\n", "\r\n", " # c\n", "\n\n ", " ", " #\n", "#\n", " #\r\n", " # \n", " ## #\n", " # a\n # b\n"}[l.r.Intn(14)]
 }
 
 func (l layout18) join(toks []string) string {
@@ -259,7 +259,7 @@ func init() {
 			}
 		}
 		// the two documented exceptions, and the repaired # comment defect
-		for _, t := range [][2]string{{"<%= n - 1 %>", "2"}, {"<%= 1 # c\n+2 %>", "3"}, {"<%= len(# c\nxs) %>", "2"}, {"<%= # c\nlen(xs) %>", "2"}, {"<%=n%>", "3"}, {"<%=\nn\n%>", "3"}, {"<%let q=n;q=q+1%><%=q%>", "4"}} {
+		for _, t := range [][2]string{{"<%= n - 1 %>", "2"}, {"<%= 1 # c\n+2 %>", "3"}, {"<%= len(# c\nxs) %>", "2"}, {"<%= # c\nlen(xs) %>", "2"}, {"<%= 1 #\n+2 %>", "3"}, {"<% let q = 1\n#\nq = q + 2 %><%= q %>", "3"}, {"<% let q = 1 #\nq = q + 2\n#\n %><%= q %>", "3"}, {"<%= 1 #\r\n+2 %>", "3"}, {"<%=n%>", "3"}, {"<%=\nn\n%>", "3"}, {"<%let q=n;q=q+1%><%=q%>", "4"}} {
 			c := RCase{Tmpl: t[0], Binds: binds}
 			o := e.addRenderCase("fixed", c)
 			if o.Class != "OK" || o.Out != t[1] {
